@@ -77,6 +77,12 @@ func (W) Gen(prop string, seed uint64, tier string) *world.Plan {
 			sops = append(sops, world.Op{K: "apply", B: 0, T: t, F: 1, V: r.U64(), W: r.U64()})
 		case 2:
 			if hist.Targets[t].Typ.NumOut() > 0 {
+				if r.Chance(500) {
+					// a result sequence consumed up to its last-but-one element by the driver: from then
+					// on every (concurrent) call must receive the last element
+					sops = append(sops, world.Op{K: "retseq", B: 0, T: t, V: r.U64(), W: r.U64()})
+					continue
+				}
 				sops = append(sops, world.Op{K: "ret", B: 0, T: t, V: r.U64(), W: r.U64()})
 			} else {
 				sops = append(sops, world.Op{K: "apply", B: 0, T: t, V: r.U64(), W: r.U64()})
@@ -138,7 +144,7 @@ func wellFormed(p *world.Plan) bool {
 	owner := map[int]int{}
 	steady := map[int]bool{}
 	for _, op := range p.Tasks[0].Ops {
-		if op.T < 0 || op.T >= len(hist.Targets) || (op.K != "apply" && op.K != "ret") || steady[op.T] {
+		if op.T < 0 || op.T >= len(hist.Targets) || (op.K != "apply" && op.K != "ret" && op.K != "retseq") || steady[op.T] {
 			return false
 		}
 		steady[op.T] = true
@@ -205,6 +211,12 @@ func (W) Exec(p *world.Plan, env *world.Env) {
 		}()
 		for i, op := range p.Tasks[0].Ops {
 			steady.Step(i, op)
+			if op.K == "retseq" {
+				// Step already made one call; consume the sequence up to (not including) its last element
+				for k := 1; k < 1+int(op.W%3); k++ {
+					steady.CallTarget(op.T, thunk.FormDirect, op.W+uint64(k))
+				}
+			}
 		}
 	}()
 	if failedSetup {
